@@ -5,7 +5,7 @@
    the implementation against sizes recomputed from the raw frames. *)
 From FMP Require Import Base.Bytes Model.Instrument Model.Events Model.Props.
 From FMP Require Import Model.CodecCfg Proofs.CodecCfgProofs.
-From FMP Require Import Model.Paths Proofs.PathProofs.
+From FMP Require Import Model.Paths Proofs.PathsC20.
 Open Scope Z_scope.
 
 Theorem C20_one_record_per_instrumenter : forall ops,
